@@ -58,6 +58,10 @@ func xl(l [][]byte) string {
 var suites = map[string]func(*ctx){}
 
 func main() {
+	if len(os.Args) == 3 && os.Args[1] == "storeop" {
+		childStoreOp(os.Args[2])
+		return
+	}
 	if len(os.Args) < 4 {
 		fmt.Fprintln(os.Stderr, "usage: hdrv <suite> <seed> <tier> [shard nshards] [workdir]")
 		os.Exit(2)
